@@ -276,10 +276,18 @@ class Executor:
         :param max_qubits: Maximum number of qubits the application is allowed to
             allocate at the same time.
         """
+        if app_id in self._qubit_unit_modules:
+            # Registering again would replace the unit module (leaking the physical
+            # qubits it maps) and wipe the classical memory of a running application.
+            raise RuntimeError(
+                f"Application with app ID {app_id} is already registered"
+            )
+        # Creating the shared memory is the only step that can fail: do it first,
+        # such that a failed registration leaves no partial state behind.
+        self._new_shared_memory(app_id=app_id)
         self.allocate_new_qubit_unit_module(app_id=app_id, num_qubits=max_qubits)
         self._setup_registers(app_id=app_id)
         self._setup_arrays(app_id=app_id)
-        self._new_shared_memory(app_id=app_id)
 
     def _setup_registers(self, app_id: int) -> None:
         """Setup registers for application"""
